@@ -1,8 +1,8 @@
 """C13, layered model: history independence of a LayeredWorld (per-layer rheology, LayeredTides) on an abstract object graph.
 
 The real classes are interpreted: PhysicsOrbit, LayeredWorld (through TidalWorld / BaseWorld), LayeredTides (through TidesBase), PhysicsLayer (through
-LayerBase) and Rheology.  Only the four model holders inside a Rheology (solid / liquid viscosity, partial melt, complex compliance) and the layer's cooling and
-radiogenic models are stubs; each stub's `calculate` is a pure, uninterpreted function of the *current* values of its live inputs (temperature; pre-melt and
+LayerBase) and Rheology.  In a first pass the four model holders inside a Rheology (solid / liquid viscosity, partial melt, complex compliance) and the layer's cooling and
+radiogenic models are stubs (in a second pass the four rheology holders are the repository's own classes, with only the numeric law inside uninterpreted: see real_holder); each stub's `calculate` is a pure, uninterpreted function of the *current* values of its live inputs (temperature; pre-melt and
 liquid viscosity; tidal frequencies, viscosity and compliance), which is the contract of `LayerModelHolder.calculate`.  Whether the final per-layer and global
 quantities equal those of a fresh graph therefore depends exactly on whether the update cascade re-runs every model whose inputs changed, in the right order.
 """
@@ -29,7 +29,30 @@ def model_stub(name, calc, **attrs):
     return StubObj(name=name, attrs={'calculate': calc, 'clear_state': NOOP, 'model': 'stub', **attrs})
 
 
-def build(repo, it, st, obliq_on, layer_names=('core', 'mantle', 'crust'), tidal=(False, True, True)):
+def prop(it, obj, name):
+    """value of `obj.name` as the interpreted class gives it (property, attribute or backing field)"""
+    m = it.find_method(obj.cls, name) if obj.cls is not None else None
+    if m is not None and any(ast.unparse(d_) == 'property' for d_ in m[1].decorator_list):
+        return it.call(m[0], m[1], [], {}, self_obj=obj, owner=m[2])
+    return obj.get(name)
+
+
+def real_holder(repo, it, path, clsname, name, func, live_names, attrs):
+    """a model holder of the repository's own class (its calculate / _calculate / properties are interpreted); only the numeric law it wraps (`func`) is an
+    uninterpreted pure function of the arguments the holder passes to it, and the live arguments are read through the holder's own properties at call time"""
+    mod = repo.by_path(path)
+    cls = ('class', mod, need_class(mod, clsname))
+    o = Obj(cls=cls, name=name, attrs=dict(attrs))
+    constructor_defaults(it, o)
+    mcalc = it.find_method(cls, '_calculate')
+    if mcalc is None:
+        raise AnalysisError(f'{clsname}._calculate vanished')
+    o.attrs.update({'_model': 'law', '_func': func, '_func_array': func, '_func_array_defined': False, '_inputs': (), '_live_inputs': None, '_debug_mode_on': False,
+                    '_calc_to_use': FuncRef(mcalc[0], mcalc[1], cls=mcalc[2], bound=o), 'get_live_args': (lambda o=o: tuple(prop(it, o, n_) for n_ in live_names))})
+    return o
+
+
+def build(repo, it, st, obliq_on, layer_names=('core', 'mantle', 'crust'), tidal=(False, True, True), real_holders=False):
     mw = repo.by_path('TidalPy/structures/world_types/layered.py'); mo = repo.by_path('TidalPy/structures/orbit/physics.py'); mt = repo.by_path('TidalPy/tides/methods/layered.py')
     ml = repo.by_path('TidalPy/structures/layers/physics.py'); mr = repo.by_path('TidalPy/rheology/rheology.py'); mm = repo.by_path('TidalPy/tides/modes/mode_manipulation.py')
     Wc = ('class', mw, need_class(mw, 'LayeredWorld')); Oc = ('class', mo, need_class(mo, 'PhysicsOrbit')); Tc = ('class', mt, need_class(mt, 'LayeredTides'))
@@ -88,6 +111,30 @@ def build(repo, it, st, obliq_on, layer_names=('core', 'mantle', 'crust'), tidal
                 return
             ident = X.atom(f'id_{lay.name}')
             cc.attrs['_complex_compliances'] = {sig: X.fn('J_model', fq, eta, comp, ident, X.I) for sig, fq in freqs.items()}
+        if real_holders:
+            ident = X.atom(f'id_{nm}')
+            common = {'_layer': lay, '_world': s.world, '_rheology_class': rhe}
+            lay.attrs.setdefault('_pressure', None); lay.attrs.setdefault('use_pressure_in_strength_calc', False)
+            rhe.attrs['_viscosity_model'] = real_holder(repo, it, 'TidalPy/rheology/viscosity/viscosity.py', 'SolidViscosity', f'viscosity_model[{nm}]',
+                                                        (lambda T, *rest, ident=ident: X.fn('eta_solid', X.lift(T), ident)), ('temperature',), dict(common, _viscosity=None))
+            rhe.attrs['_liquid_viscosity_model'] = real_holder(repo, it, 'TidalPy/rheology/viscosity/viscosity.py', 'LiquidViscosity', f'liquid_viscosity_model[{nm}]',
+                                                               (lambda T, *rest, ident=ident: X.fn('eta_liquid', X.lift(T), ident)), ('temperature',), dict(common, _viscosity=None))
+
+            def melt_law(melt, T, ev, el, mu0, *rest, ident=ident):
+                a_ = [X.lift(v_) for v_ in (melt, T, ev, el, mu0)]
+                return X.fn('eta_post', *a_, ident), X.fn('mu_post', *a_, ident)
+            rhe.attrs['_partial_melting_model'] = real_holder(repo, it, 'TidalPy/rheology/partial_melt/partialmelt.py', 'PartialMelt', f'partial_melting_model[{nm}]', melt_law,
+                                                              ('temperature', 'premelt_viscosity', 'liquid_viscosity', 'premelt_shear'),
+                                                              dict(common, solidus=X.atom(f'solidus_{nm}', 'pos'), liquidus=X.atom(f'liquidus_{nm}', 'pos'), use_partial_melt=True,
+                                                                   _melt_fraction=None, _postmelt_viscosity=None, _postmelt_shear_modulus=None, _postmelt_compliance=None))
+            rhe.attrs['_complex_compliance_model'] = real_holder(repo, it, 'TidalPy/rheology/complex_compliance/complex_compliance.py', 'ComplexCompliance', f'complex_compliance_model[{nm}]',
+                                                                 (lambda fq, comp, eta, *rest, ident=ident: X.fn('J_model', X.lift(fq), X.lift(eta), X.lift(comp), ident, X.I)),
+                                                                 ('compliance', 'viscosity'), dict(common, _complex_compliances=None))
+            lay.attrs['_rheology'] = rhe
+            lay.attrs['_cooling_model'] = model_stub('cooling_model', NOOP, model='off', _cooling=None, _cooling_flux=None)
+            lay.attrs['_radiogenics'] = model_stub('radiogenics', NOOP, model='off', _heating=None)
+            s.layers.append(lay)
+            continue
         rhe.attrs['_viscosity_model'] = model_stub('viscosity_model', visc_calc, _viscosity=None)
         rhe.attrs['_liquid_viscosity_model'] = model_stub('liquid_viscosity_model', liq_calc, _viscosity=None)
         rhe.attrs['_partial_melting_model'] = model_stub('partial_melting_model', melt_calc, _postmelt_viscosity=None, _postmelt_shear_modulus=None, _postmelt_compliance=None, _melt_fraction=None)
@@ -190,18 +237,38 @@ def run_layered(chk, repo, rule='R13.7'):
         base = ['orbit.set_eccentricity', 'world.set_obliquity', 'world.set_spin_frequency', 'orbit.set_semi_major_axis', 'mantle.set_temperature', 'crust.set_temperature', 'core.set_temperature']
         pairs = [(a_, b_) for a_ in base for b_ in base if a_ != b_]
     seqs = [(m_,) for m_ in singles] + pairs
+    # the same histories with the repository's own model holders (SolidViscosity, LiquidViscosity, PartialMelt, ComplexCompliance: calculate / _calculate / properties
+    # interpreted; only the numeric law inside is an uninterpreted pure function): what a holder keeps between calls is part of the history
+    temp_singles = [m_ for m_ in singles if 'temperature' in m_]
+    real_seqs = [(m_,) for m_ in temp_singles] + [('mantle.set_temperature', 'mantle.set_temperature'), ('mantle.set_temperature', 'orbit.set_eccentricity'),
+                                                   ('world.set_spin_frequency', 'crust.set_temperature'), ('crust.set_temperature', 'mantle.set_state(temperature)')]
+    if chk.tier != 'quick':
+        real_seqs += [(a_, b_) for a_ in temp_singles for b_ in temp_singles if (a_, b_) not in real_seqs] + [(m_,) for m_ in singles if m_ not in temp_singles]
     nseq = 0
     for obliq_on in ((True,) if chk.tier == 'quick' else (True, False)):
-        model = 'layered world (core not tidal, mantle and crust tidal), obliquity tides ' + ('on' if obliq_on else 'off')
-        for seq in seqs:
+      for real in (False, True):
+        model = 'layered world (core not tidal, mantle and crust tidal), obliquity tides ' + ('on' if obliq_on else 'off') + (', the repository\'s own model holders' if real else '')
+        for seq in (real_seqs if real else seqs):
             nseq += 1
             st0 = state_atoms('0', layer_names)
             final = dict(st0)
 
-            def history(fork, seq=seq, st0=st0, final=final):
+            def mk_interp(fork=None):
                 it = make_interp(repo)
-                it.hooks['fork'] = fork
-                s = build(repo, it, st0, obliq_on, layer_names)
+                if fork is not None: it.hooks['fork'] = fork
+                if real:
+                    prev = it.hooks.get('call')
+
+                    def call_hook(itp, f, args, kwargs, e, fr, prev=prev):
+                        if isinstance(f, FuncRef) and f.node.name in ('calculate_melt_fraction', 'calculate_melt_fraction_array'):
+                            return X.fn('melt_fraction', *[X.lift(a_) for a_ in args])        # the melting law itself is C19's business
+                        return prev(itp, f, args, kwargs, e, fr) if prev is not None else NotImplemented
+                    it.hooks['call'] = call_hook
+                return it
+
+            def history(fork, seq=seq, st0=st0, final=final):
+                it = mk_interp(fork)
+                s = build(repo, it, st0, obliq_on, layer_names, real_holders=real)
                 full_init(it, s, st0, layer_names)
                 for i, mname in enumerate(seq):
                     key, fn_ = M[mname]
@@ -209,25 +276,53 @@ def run_layered(chk, repo, rule='R13.7'):
                     fn_(it, s, newv)
                     final[key] = newv
                 return exposed(s)
+
+            def fresh(fork):
+                it2 = mk_interp(fork)
+                sf = build(repo, it2, final, obliq_on, layer_names, real_holders=real)
+                full_init(it2, sf, final, layer_names)
+                return exposed(sf)
             try:
                 from .c13 import explore_history
-                got, path_label = explore_history(history)
-                it2 = make_interp(repo)
-                sf = build(repo, it2, final, obliq_on, layer_names)
-                full_init(it2, sf, final, layer_names)
-                ref = exposed(sf)
+                from ..core.interp import PathExplorer
+                if real:
+                    # a data-dependent test inside a holder (melt present or not, ...) may come out either way at every call: every combination is a history
+                    outcomes = [(PathExplorer.label(tr_), g_) for tr_, g_ in PathExplorer(max_paths=256).run(history)]
+                    refs = [g_ for _t, g_ in PathExplorer(max_paths=64).run(fresh)]
+                else:
+                    got, path_label = explore_history(history)
+                    outcomes = [(path_label, got)]
+                    refs = [fresh(None)]
             except RaiseSignal as ex:
-                raise AnalysisError(f'sequence {seq} on {model}: unexpected raise {ex.text}')
+                try:
+                    fresh(None)
+                except RaiseSignal:
+                    raise AnalysisError(f'sequence {seq} on {model}: unexpected raise {ex.text}')
+                # the history raises where a fresh world in the same final state does not: that is a history-dependent outcome
+                inst = f'{model}: after {" ; ".join(seq)} every exposed quantity (global and per layer) equals that of a fresh world in the final state'
+                chk.ob(rule, inst, False, f'the sequence raises {ex.text[:120]}; a fresh world placed in the final state does not', mt.rel(), key=f'{rule}|{model}|{"+".join(seq)}',
+                       method='abstract object graph + GF(p^2) PIT')
+                continue
+
+            def differences(got, ref):
+                bad = []
+                for q in sorted(set(got) | set(ref)):
+                    a_, b_ = got.get(q), ref.get(q)
+                    if a_ is None and b_ is None: continue
+                    if not (isinstance(a_, X.Node) and isinstance(b_, X.Node)):
+                        bad.append(f'{q}: {"unset" if a_ is None else "set"} after the sequence, {"unset" if b_ is None else "set"} on a fresh world'); continue
+                    if a_ is not b_ and not d.equal(a_, b_):
+                        bad.append(f'{q.lstrip("_")} differs from a fresh world in the final state')
+                return bad
             bad = []
-            for q in sorted(set(got) | set(ref)):
-                a_, b_ = got.get(q), ref.get(q)
-                if a_ is None and b_ is None: continue
-                if not (isinstance(a_, X.Node) and isinstance(b_, X.Node)):
-                    bad.append(f'{q}: {"unset" if a_ is None else "set"} after the sequence, {"unset" if b_ is None else "set"} on a fresh world'); continue
-                if not d.equal(a_, b_):
-                    bad.append(f'{q.lstrip("_")} differs from a fresh world in the final state')
+            for path_label, got in outcomes:
+                per_ref = [differences(got, ref) for ref in refs]
+                if all(per_ref):           # no outcome of the fresh world's own tests reproduces this history's result
+                    bad = [x_ + path_label for x_ in min(per_ref, key=len)]
+                    break
             inst = f'{model}: after {" ; ".join(seq)} every exposed quantity (global and per layer) equals that of a fresh world in the final state'
-            chk.ob(rule, inst, not bad, '; '.join(bad[:4]) + (path_label if bad else ''), mt.rel(), key=f'{rule}|{model}|{"+".join(seq)}', method='abstract object graph (stubbed model holders) + GF(p^2) PIT')
+            chk.ob(rule, inst, not bad, '; '.join(bad[:4]), mt.rel(), key=f'{rule}|{model}|{"+".join(seq)}',
+                   method='abstract object graph (' + ('real model holders, numeric laws uninterpreted' if real else 'stubbed model holders') + ') + GF(p^2) PIT')
     chk.note_analysed('layered mutator sequences', nseq)
     return nseq
 
